@@ -18,6 +18,8 @@ pub struct EnvPeer {
 
 pub struct Env {
     pub peers: Vec<EnvPeer>,
+    /// the last honest BlockFilterHashes answer per peer: (start, parent, hashes), for late / shorter repetitions
+    pub last_hashes: Vec<Option<(u64, packed::Byte32, Vec<packed::Byte32>)>>,
     /// blocks below each leaf that `grow` keeps back (for a final phase in which every peer announces
     /// blocks the client cannot know yet, so that it has to ask for proofs)
     pub reserve: u64,
@@ -42,7 +44,8 @@ impl Env {
                 server: HonestPeer::new(*tip),
             })
             .collect();
-        Env { peers, reserve: 0, bans: 0 }
+        let n = tips.len();
+        Env { peers, last_hashes: vec![None; n], reserve: 0, bans: 0 }
     }
 
     pub fn connect(&mut self, sim: &mut Sim, i: usize) {
@@ -260,6 +263,7 @@ impl Env {
                     if let packed::BlockFilterMessageUnion::BlockFilterHashes(c) = m.to_enum() {
                         args["parent"] = json!(maps.fid(&c.parent_block_filter_hash()));
                         args["hs"] = json!(c.block_filter_hashes().into_iter().map(|h| maps.fid(&h)).collect::<Vec<_>>());
+                        self.last_hashes[i] = Some((start, c.parent_block_filter_hash(), c.block_filter_hashes().into_iter().collect()));
                     }
                 }
                 if kind == "cps" {
@@ -647,6 +651,26 @@ impl Env {
         let args = json!({"p": pname(p), "start": start, "n": ids.len(), "tip": server.tip + 1, "kind": "mut:forged-interval",
             "fs": ids.iter().map(|_| quiet + 1).collect::<Vec<_>>(), "hs": ids.iter().map(|b| b + 1).collect::<Vec<_>>()});
         sim.step("Filters", args, |c| c.deliver(Proto::Filter, p, m.as_bytes()));
+        true
+    }
+
+    /// A late repetition of peer i's last honest BlockFilterHashes answer: the same start and parent, only the first
+    /// `keep` hashes (everything consistent with what the client cached from the full answer, just shorter).
+    pub fn late_short_hashes(&mut self, sim: &mut Sim, i: usize, rng: &mut rand::rngs::StdRng) -> bool {
+        use rand::Rng;
+        let p = self.peers[i].idx;
+        let (start, parent, hs) = match self.last_hashes[i].clone() {
+            Some(x) if !x.2.is_empty() => x,
+            _ => return false,
+        };
+        let keep = rng.gen_range(0..hs.len());
+        let v: Vec<packed::Byte32> = hs[..keep].to_vec();
+        let maps = crate::verif::project::Maps::new(&sim.chain);
+        let content = packed::BlockFilterHashes::new_builder().start_number(start.pack()).parent_block_filter_hash(parent.clone()).block_filter_hashes(v.clone().pack()).build();
+        let m = packed::BlockFilterMessage::new_builder().set(content).build();
+        let args = json!({"p": pname(p), "start": start, "n": v.len(), "tip": self.peers[i].server.tip + 1, "kind": "mut:late-shorter",
+            "parent": maps.fid(&parent), "hs": v.iter().map(|h| maps.fid(h)).collect::<Vec<_>>()});
+        sim.step("FilterHashes", args, |c| c.deliver(Proto::Filter, p, m.as_bytes()));
         true
     }
 
